@@ -795,6 +795,50 @@ def c20(tier):
     return out
 
 
+CFG_FEATS = ['OD_EMCY', 'OD_SYNC', 'OD_HBC', 'OD_PARA', 'OD_CSDO', 'OD_RPDO', 'OD_TPDO', 'OD_DUMMY']
+
+
+def cfg_inst(mask, extra=None, tag='', part=0):
+    defs = dict(NODE_DEFS)
+    defs.update({'CO_VERIF_SDO_BUF_SEG': 2, 'OD_TMR_N': 6, 'ENV_NVM_CALLS': 12, 'PART': part})
+    on = []
+    for b, f in enumerate(CFG_FEATS):
+        if mask & (1 << b):
+            defs[f] = 2 if f in ('OD_RPDO', 'OD_TPDO') else None
+            on.append(f[3:].lower())
+    if extra:
+        defs.update(extra)
+    uw = node_unwind(2)
+    uw.update(lss_unwind())
+    uw.update({'COTmrDelete': 7, 'COTmrInsert': 7, 'COTmrRemove': 8, 'COTmrProcess': 7, 'COTmrReset': 7, 'CoVerifTmrPool': 7, 'COTmrClear': 4,
+               'COSyncInit': 4, 'COSyncHandler': 4, 'COSyncUpdate': 4, 'COSyncRx': 9, 'COTPdoGetMap': 10, 'COTPdoTx': 10, 'CORPdoReset': 10, 'CORPdoGetMap': 10,
+               'CORPdoCheck': 4, 'CORPdoWrite': 10, 'COEmcyReset': 6, 'COEmcySend': 7, 'COTEmcyHistInit': 5, 'COEmcyHistReset': 5, 'CONmtModeDecode': 7,
+               'COTNmtHbConsInit': 4, 'CONmtHbConsActivate': 4, 'CONmtHbConsCheck': 4, 'CONmtLastHbState': 4, 'CONmtGetHbEvents': 4,
+               'COCSdoInit': 3, 'COCSdoCheck': 3, 'COCSdoUploadExpedited': 6, 'COLssInit': 6, 'EnvNvmRead': 10, 'EnvNvmWrite': 10,
+               'COTParaStoreWrite': 5, 'COTParaRestoreWrite': 5, 'CONodeParaLoad': 5, 'COTPdoNumWrite': 11})
+    if extra and extra.get('USE_LSS') == 0:
+        uw = {k: v for k, v in uw.items() if not (isinstance(k, str) and k.startswith('COLss'))}
+    if extra and extra.get('USE_CSDO') == 0:
+        uw = {k: v for k, v in uw.items() if not (isinstance(k, str) and k.startswith('COCSdo'))}
+    return Inst('cfg_%s%s_p%d' % ('_'.join(on) or 'none', tag, part), 'cfg_sweep.c', defs, unwind=20, unwindset=uw, objbits=10, csdo_cbs=['cb'],
+                harness_only=['PART'], family='cfg_sweep', safety_only=True,
+                bounds='dictionary with optional groups {%s}%s, input sequence part %d; data of every input and driver faults symbolic, times concrete' % (', '.join(on) or 'none', (' and build parameters %s' % extra) if extra else '', part))
+
+
+def cfg_insts(tier):
+    full = (1 << len(CFG_FEATS)) - 1
+    if tier == 'quick':
+        masks = [0, full] + [full & ~(1 << b) for b in range(len(CFG_FEATS))]
+    else:
+        masks = list(range(full + 1))
+    out = [cfg_inst(m, part=pt) for m in masks for pt in (0, 1, 2, 3)]
+    for extra, tag in (({'CO_SSDO_N': 2}, '_2srv'), ({'USE_LSS': 0}, '_nolss'), ({'USE_CSDO': 0}, '_nocsdo'), ({'OD_FREQ': 100}, '_f100'), ({'OD_FREQ': 1000000}, '_f1M')):
+        for m in ((full,) if tier == 'quick' else (full, 0, 0x55, 0xAA)):
+            for pt in (0, 1, 2, 3):
+                out.append(cfg_inst(m, extra, tag, pt))
+    return out
+
+
 def safety(insts):
     out = []
     for i in insts:
@@ -817,7 +861,7 @@ def c01(tier):
     sw += [i for i in c19(tier) if i.name == 'csdo_step' or '_b5_' in i.name or '_b3_' in i.name]
     sw += [i for i in c16(tier) if i.name.startswith('sync_')]
     sw += [i for i in c08(tier) if '_isr1_' in i.name][:(12 if tier == 'quick' else 60)]
-    return out + safety(sw)
+    return out + safety(sw) + cfg_insts(tier)
 
 
 PROPS = {
